@@ -39,7 +39,7 @@ func runC03(c *core.Ctx) {
 		workers = 14
 	}
 	c.RunSharded(cases, core.ShardOpts{Mode: "c03", Workers: workers, Timeout: 40 * time.Minute})
-	c.Extra("exhaustive_per_scenario", true)
+	c.Extra("exhaustive_per_scenario", !c.Quick())
 	c.Extra("reasons", c03Reasons)
 }
 
@@ -230,6 +230,12 @@ func c03Case(c *core.Ctx, id string) {
 			// limit 4 repeats the enumeration under real overlap; quick samples it
 			r.Shuffle(len(specs), func(a, b int) { specs[a], specs[b] = specs[b], specs[a] })
 			specs = specs[:20]
+		}
+		if c.Quick() && len(specs) > 120 {
+			// the quick tier bounds the largest scenarios; the thorough tier enumerates every point
+			r.Shuffle(len(specs), func(a, b int) { specs[a], specs[b] = specs[b], specs[a] })
+			specs = specs[:120]
+			c.Count("scenarios_sampled_to_120_points", 1)
 		}
 		c.Max("max_crash_points_in_one_scenario", int64(len(specs)))
 		for _, spec := range specs {
